@@ -18,7 +18,8 @@ def main(run: Run):
     run.assumptions += BASE_ASSUMPTIONS_L2
     run.functions["amaranth_soc.csr.bus.Multiplexer.elaborate (read path)"] = "per-layout (bounded), all access sequences/all time by induction with a ghost monitor and an observational invariant"
     run.functions["amaranth_soc.csr.bus.Multiplexer._Shadow.add/prepare/decode_address/encode_offset"] = "executed by elaborate() for every layout; hash lemmas by pyvc (see C04 L1 part)"
-    run_configs(run, __name__, cfgs)
+    from . import mux as _mux
+    run_configs(run, __name__, cfgs, must_accept=_mux.must_accept)
     from . import shadow_l1
     shadow_l1.add_to(run)
     return run.finish(
